@@ -262,6 +262,13 @@ CMP_ORIGINAL = ("def _handle_cmp(self, obj, other, op='__cmp__'):\n    try:\n   
                 "    except Exception:\n        raise")
 CMP_REFLECTING = ("def _handle_cmp(self, obj, other, op='__cmp__'):\n    try:\n        return self._reflect(obj, op, (other,), self._access_attr(type(obj), op, (), '_rpyc_getattr', 'allow_getattr', getattr)(obj, other))\n"
                   "    except Exception:\n        raise")
+# the comparison route restricted to the comparison names (the accessor is getattr for exactly the names a proxy ever sends on this
+# route - BaseNetref's __cmp__/__eq__/__ne__/__lt__/__le__/__gt__/__ge__ - and refuses every other name): for the operations of
+# this model the same handler
+_CMP_GUARD = ("\n\n    def getcmp(cls, name):\n        if name not in ('__cmp__', '__eq__', '__ne__', '__lt__', '__le__', '__gt__', '__ge__'):\n"
+              "            raise AttributeError('cannot access %r' % (name,))\n        return getattr(cls, name)")
+def _guarded(form):
+    return form.replace("op='__cmp__'):", "op='__cmp__'):" + _CMP_GUARD, 1).replace("'allow_getattr', getattr)", "'allow_getattr', getcmp)", 1)
 CALLATTR_ORIGINAL = "def _handle_callattr(self, obj, name, args, kwargs=()):\n    obj = self._handle_getattr(obj, name)\n    return self._handle_call(obj, args, kwargs)"
 CALLATTR_REFLECTING = ("def _handle_callattr(self, obj, name, args, kwargs=()):\n    res = self._handle_call(self._handle_getattr(obj, name), args, kwargs)\n"
                        "    return res if kwargs else self._reflect(obj, name, args, res)")
@@ -295,13 +302,19 @@ def handlers(repo, shapes):
             out.append((table[meth], term))
     got = func_shape(find_func(cls, "_handle_ctxexit"))
     shapes["_handle_ctxexit"] = got
-    raises_unboxed = got == CTXEXIT_REPAIRED
-    if got not in (CTXEXIT_ORIGINAL, CTXEXIT_REPAIRED):
+    # which classes the `raise` that turns the exception into exc_info is guarded against: Exception (KeyboardInterrupt, SystemExit,
+    # GeneratorExit escape the handler, __exit__ is never called) or BaseException
+    CTXEXIT_REPAIRED_BASE = CTXEXIT_REPAIRED.replace("except Exception:", "except BaseException:")
+    raises_unboxed = got in (CTXEXIT_REPAIRED, CTXEXIT_REPAIRED_BASE)
+    catches_base = got == CTXEXIT_REPAIRED_BASE
+    if got not in (CTXEXIT_ORIGINAL, CTXEXIT_REPAIRED, CTXEXIT_REPAIRED_BASE):
         bad.append("_handle_ctxexit")
     # operators
     cmp_, call_ = func_shape(find_func(cls, "_handle_cmp")), func_shape(find_func(cls, "_handle_callattr"))
     shapes["_handle_cmp"], shapes["_handle_callattr"] = cmp_, call_
     reflects, table_items = False, []
+    if cmp_ in (_guarded(CMP_ORIGINAL), _guarded(CMP_REFLECTING)):
+        cmp_ = CMP_ORIGINAL if cmp_ == _guarded(CMP_ORIGINAL) else CMP_REFLECTING
     if (cmp_, call_) == (CMP_ORIGINAL, CALLATTR_ORIGINAL):
         if any(isinstance(n, ast.FunctionDef) and n.name == "_reflect" for n in cls.body):
             bad.append("_reflect (defined but not used by both operator handlers)")
@@ -329,7 +342,7 @@ def handlers(repo, shapes):
         bad.append("operator handlers not in _request_handlers")
     if bad:
         raise Unrecognised("body of " + ", ".join(bad))
-    return out, table["_handle_ctxexit"], raises_unboxed, reflects, table_items
+    return out, table["_handle_ctxexit"], raises_unboxed, reflects, table_items, catches_base
 
 
 # ------------------------------------------------------------------ buffiter (helpers.py)
@@ -474,7 +487,7 @@ def translate(repo):
     hshapes = {}
 
     def handler_bodies():
-        rows, exit_handler, raises_unboxed, reflects, rtable = handlers(repo, hshapes)
+        rows, exit_handler, raises_unboxed, reflects, rtable, catches_base = handlers(repo, hshapes)
         delivers = bool(facts.get("exit_by_value")) and raises_unboxed
         if bool(facts.get("exit_by_value")) != raises_unboxed:
             raise Unrecognised("__exit__ and _handle_ctxexit disagree about how the exception travels")
@@ -484,6 +497,7 @@ def translate(repo):
         rows.sort(key=lambda r: (order + ["HANDLE_BUFFITER"]).index(r.split('"')[1]) if r.split('"')[1] in order + ["HANDLE_BUFFITER"] else 99)
         rows.insert(len(order), "(%s, HCtxExit ctxexit_delivers)" % coq_string(exit_handler))
         return [typed("ctxexit_delivers", "bool", coq_bool(delivers)),
+                typed("ctxexit_catches_base", "bool", coq_bool(catches_base)),
                 typed("reflects", "bool", coq_bool(reflects)),
                 typed("reflected_table", "list (string * string)", coq_list("(%s, %s)" % (coq_string(a), coq_string(b)) for a, b in rtable)),
                 typed("handler_bodies", "list (string * hbody)", coq_list(rows))]
